@@ -36,10 +36,26 @@ pub broadcast axiom fn axiom_set_removed_str(old_m: Set<String>, new_m: Set<Stri
     ensures #[trigger] sets_differ_by_borrowed_key::<String, str>(old_m, new_m, k)
         <==> new_m == old_m.remove(string_of(k@));
 
+// String::from(&str) / (&str).into() copy the text (std documentation); vstd routes From through FromSpec
+pub broadcast axiom fn axiom_string_from_str_obeys()
+    ensures #[trigger] <String as vstd::std_specs::convert::FromSpec<&str>>::obeys_from_spec();
+pub broadcast axiom fn axiom_string_from_str(s: &str)
+    ensures (#[trigger] <String as vstd::std_specs::convert::FromSpec<&str>>::from_spec(s))@ == s@;
+
+pub broadcast axiom fn axiom_string_from_string_ref_obeys()
+    ensures #[trigger] <String as vstd::std_specs::convert::FromSpec<&String>>::obeys_from_spec();
+pub broadcast axiom fn axiom_string_from_string_ref(s: &String)
+    ensures (#[trigger] <String as vstd::std_specs::convert::FromSpec<&String>>::from_spec(s))@ == s@;
+
 pub broadcast group group_string_keys {
     axiom_string_key_model, axiom_string_ext, axiom_str_ext, axiom_string_of,
     axiom_set_contains_str, axiom_map_contains_str, axiom_map_value_str, axiom_set_removed_str,
+    axiom_string_from_str_obeys, axiom_string_from_str, axiom_string_from_string_ref_obeys, axiom_string_from_string_ref,
 }
+
+// ToOwned::to_owned of a Clone type is clone (std: blanket impl<T: Clone> ToOwned for T)
+pub assume_specification<T: Clone>[ <T as std::borrow::ToOwned>::to_owned ](t: &T) -> (r: T)
+    ensures vstd::pervasive::cloned(*t, r);
 
 // `for x in &HashSet` — same facts vstd gives for `.iter()`
 pub assume_specification<'a, T, S, A: Allocator>[ <&'a HashSet<T, S, A> as IntoIterator>::into_iter ]
